@@ -107,7 +107,11 @@ pub fn progress_wait(mut cond: impl FnMut() -> bool, stall: Duration) -> bool {
 }
 
 pub fn default_stall() -> Duration {
-    Duration::from_secs(if is_miri() { 120 } else { 20 })
+    // (under the interpreter: 10 minutes. One thorough run on a machine loaded far beyond its cores -
+    // four seeded sweeps, two quick series and 8 x 16 interpreter threads at once - had an append
+    // that did not return within 120 s of wall clock and returned fine when re-run; a stall verdict
+    // must not be a statement about the machine's load. DESIGN.md section 12.)
+    Duration::from_secs(if is_miri() { 600 } else { 20 })
 }
 
 struct ThreadWaker(std::thread::Thread, AtomicBool);
